@@ -4,7 +4,7 @@
 //! (3) extra bounded evidence in the thorough tier.  Never counted as proof.
 //!
 //! usage: verif-search <property> [--only <check>]      output: one JSON object per line
-mod c01; mod c04; mod c07; mod c09; mod c10; mod c11; mod c12; mod c15; mod c16; mod c17; mod c18; mod c19;
+mod c01; mod c02; mod c04; mod c07; mod c09; mod c10; mod c11; mod c12; mod c15; mod c16; mod c17; mod c18; mod c19;
 
 use std::panic;
 
@@ -51,7 +51,7 @@ fn main() {
     let only = args.iter().position(|a| a == "--only").and_then(|i| args.get(i + 1).cloned());
     let mut cx = Ctx { only, results: vec![] };
     match pid.as_str() {
-        "C01" => c01::run(&mut cx), "C04" => c04::run(&mut cx), "C07" => c07::run(&mut cx), "C09" => c09::run(&mut cx), "C11" => c11::run(&mut cx), "C12" => c12::run(&mut cx), "C10" => c10::run(&mut cx), "C15" => c15::run(&mut cx),
+        "C01" => c01::run(&mut cx), "C02" => c02::run(&mut cx), "C04" => c04::run(&mut cx), "C07" => c07::run(&mut cx), "C09" => c09::run(&mut cx), "C11" => c11::run(&mut cx), "C12" => c12::run(&mut cx), "C10" => c10::run(&mut cx), "C15" => c15::run(&mut cx),
         "C16" => c16::run(&mut cx), "C17" => c17::run(&mut cx), "C18" => c18::run(&mut cx), "C19" => c19::run(&mut cx),
         _ => { eprintln!("no executable contracts for {}", pid); std::process::exit(2); }
     }
